@@ -119,35 +119,47 @@ def check_doc(acc, job):
                 if g[enc][0] != exp:
                     acc.violation(Viol('encoding-' + enc, 'header-is-not-prefix-plus-type', case, exp, g[enc][0]))
         # 3. basic == full with the signifiers removed note by note; non-note cells identical in all six
-        gb = g['bekern']
-        if len(gb) != len(ge):
-            acc.violation(Viol('bekern-vs-ekern', 'row-count-differs', case, len(ge), len(gb)))
-            continue
-        for ri, (re_, rb, r) in enumerate(zip(ge, gb, rows)):
-            if len(rb) != len(re_):
-                acc.violation(Viol('bekern-vs-ekern', 'cell-count-differs', case, re_, rb))
-                break
-            for ce, cb, c in zip(re_, rb, r['cells']):
+        exp_rows = []
+        for ri, (re_, r) in enumerate(zip(ge, rows)):
+            erow = []
+            for ce, c in zip(re_, r['cells']):
                 k = c.spec['k']
                 if c.spec.get('cat') == 'HEADER':
+                    erow.append('**be' + ce[3:] if ce.startswith('**e') else ce)
+                elif k == 'v' or ce in A.NULLS:
+                    erow.append(ce)
+                else:
+                    notes_e = ce.split(' ') if k == 'c' else [ce]
+                    if k == 'c' and len(notes_e) != len(c.spec['notes']):
+                        acc.violation(Viol('ekern', 'chord-note-count', case, len(c.spec['notes']), ce))
+                    erow.append(' '.join(debasic_note(n) for n in notes_e))
+            if all(x in A.NULLS for x in erow):
+                continue        # a row whose notes keep nothing in the basic encoding is a null row there
+            exp_rows.append((ri, erow))
+        gb = g['bekern']
+        if len(gb) != len(exp_rows):
+            acc.violation(Viol('bekern-vs-ekern', 'row-count-differs', case, len(exp_rows), len(gb)))
+            continue
+        for (ri, erow), rb in zip(exp_rows, gb):
+            if len(rb) != len(erow):
+                acc.violation(Viol('bekern-vs-ekern', 'cell-count-differs', case, erow, rb))
+                break
+            for x, y, c in zip(erow, rb, rows[ri]['cells']):
+                if x != y and not (x in A.NULLS and y in A.NULLS):
+                    sym = 'chord-note-lost' if c.spec['k'] == 'c' and len(y.split(' ')) != len(x.split(' ')) else 'basic-is-not-full-minus-signifiers'
+                    acc.violation(Viol('bekern-vs-ekern', sym, case, x, y))
+        # non-note cells identical in all six encodings (headers aside)
+        for ri, (re_, r) in enumerate(zip(ge, rows)):
+            for ci, (ce, c) in enumerate(zip(re_, r['cells'])):
+                if c.spec['k'] != 'v' or c.spec.get('cat') == 'HEADER':
                     continue
-                if k == 'v':
-                    others = {e: g[e][ri][r['cells'].index(c)] for e in g if len(g[e]) == len(ge) and len(g[e][ri]) == len(re_)}
-                    if len(set(others.values())) != 1:
-                        acc.violation(Viol('non-note-cell', 'differs-between-encodings', case, ce, others))
-                    continue
-                if ce in A.NULLS:
-                    if cb not in A.NULLS:
-                        acc.violation(Viol('bekern-vs-ekern', 'basic-is-not-full-minus-signifiers', case, ce, cb))
-                    continue
-                notes_e = ce.split(' ') if k == 'c' else [ce]
-                if k == 'c' and len(notes_e) != len(c.spec['notes']):
-                    acc.violation(Viol('ekern', 'chord-note-count', case, len(c.spec['notes']), ce))
-                    continue
-                exp = ' '.join(debasic_note(n) for n in notes_e)
-                if cb != exp and not (exp in A.NULLS and cb in A.NULLS):     # a note left with nothing is a null placeholder
-                    sym = 'chord-note-lost' if k == 'c' and len(cb.split(' ')) != len(notes_e) else 'basic-is-not-full-minus-signifiers'
-                    acc.violation(Viol('bekern-vs-ekern', sym, case, exp, cb))
+                for e2 in ('aekern',):
+                    if e2 in g and len(g[e2]) == len(ge) and len(g[e2][ri]) == len(re_) and g[e2][ri][ci] != ce:
+                        acc.violation(Viol('non-note-cell', 'differs-between-encodings', case, ce, g[e2][ri][ci]))
+        for (ri, erow), rb in zip(exp_rows, gb):
+            for x, y, c in zip(erow, rb, rows[ri]['cells']):
+                if c.spec['k'] == 'v' and c.spec.get('cat') != 'HEADER' and x != y and not (x in A.NULLS and y in A.NULLS):
+                    acc.violation(Viol('non-note-cell', 'differs-between-encodings', case, x, y))
 
 
 def _job(jobs):
